@@ -1,4 +1,5 @@
 import ChiaModel.Props.C08
+#print axioms ChiaModel.C08.bundle_path_eq_block_path
 #print axioms ChiaModel.C08.bundle_path_eq_block_path_partial
 #print axioms ChiaModel.C08.bundle_path_eq_block_path_reversed_partial
 #print axioms ChiaModel.C08.generator_length
